@@ -271,7 +271,7 @@ func (g *Gen) loadLoc(st *State, l *Loc) string {
 	}
 	for _, p := range l.Path {
 		if p.Field >= 0 {
-			base = structGet(g.m.sortOf(p.St), fieldName(p.St, p.Field), base)
+			base = structGet(g.m.sortOf(p.T), fieldName(p.St, p.Field), base)
 		} else {
 			base = sel(base, p.Idx)
 		}
@@ -285,7 +285,7 @@ func (g *Gen) updPath(cur string, path []pathStep, v string) string {
 	}
 	p := path[0]
 	if p.Field >= 0 {
-		ss := g.m.sortOf(p.St)
+		ss := g.m.sortOf(p.T)
 		var parts []string
 		for i := 0; i < p.St.NumFields(); i++ {
 			f := structGet(ss, fieldName(p.St, i), cur)
